@@ -94,7 +94,7 @@ func nacked(tag string, pct int) bool {
 
 func TestC16Calls(t *testing.T) {
 	e := vrun.LoadEnv()
-	meta := vrun.Meta{Property: "C16", Workload: "TestC16Calls", Total: e.Pick(300, 5000),
+	meta := vrun.Meta{Property: "C16", Workload: "TestC16Calls", Total: e.Pick(300, 40000),
 		Rule:        "1-32 concurrent callers x 1-5 calls over SendCall / SendReplyCall / SendCallAndWaitReplayCall, each call carrying its caller's tag in the payload; the broker builds acks and replies from the UpstreamCall it saw (reply payload = 'reply:'+tag, RequestCallID = that call's id), answers in batches of 1-8 in fifo/reverse/random order, optionally reply before ack, duplicated acks, replies for unknown call ids, negative acks for a tag-determined subset; concurrently the broker pushes 0-256 incoming calls and the application drains ReceiveCall and ReceiveReplyCall. Oracle: call ids unique; the call id returned by SendCall/SendReplyCall is the id of the UpstreamCall carrying the caller's own tag; SendCallAndWaitReplayCall returns the reply built from its own call; exactly the nacked callers fail, with their own tag in the error; ReceiveCall/ReceiveReplyCall hand every item once, unmodified, in arrival order. non-trivial = >=6 calls with batch >= 2; distinct = scenario tuple",
 		Assumptions: []string{"fewer than 1024 replies and incoming calls per connection (documented inbox depth), the application drains the inboxes"}}
 	vrun.Loop(t, meta, 0, func(c *vrun.Case) vrun.Result {
